@@ -543,7 +543,7 @@ func (a *nilAn) nonNil(v ssa.Value, at ssa.Instruction, depth int) bool {
 					return true // SLOT-INIT: filled by the constructor (cleared only for one-time validators)
 				}
 			}
-			return false
+			return a.callSitesEstablish(x)
 		case *ssa.IndexAddr:
 			// element of a slot array/slice
 			if fa, ok := src.X.(*ssa.FieldAddr); ok {
@@ -601,6 +601,101 @@ func (a *nilAn) nonNil(v ssa.Value, at ssa.Instruction, depth int) bool {
 		return a.callNonNil(x, 0, at, depth)
 	}
 	return false
+}
+
+// callSitesEstablish: the loaded access path is rooted at a parameter of an unexported function, and every call
+// site of that function is dominated by a non-nil test of the corresponding path of its argument (the guard of an
+// extracted helper stays at the call site: `if s.X != nil { s.helper(...) }` with helper reading s.X).
+func (a *nilAn) callSitesEstablish(ld *ssa.UnOp) bool {
+	f := ld.Parent()
+	if f == nil || f.Parent() != nil {
+		return false
+	}
+	if o := f.Object(); o == nil || o.Exported() {
+		return false
+	}
+	vp, ok := core.Path(ld)
+	if !ok || strings.Contains(vp, "?") {
+		return false
+	}
+	vp = strings.TrimPrefix(vp, "&")
+	var root *ssa.Parameter
+	k := -1
+	for i, prm := range f.Params {
+		if strings.HasPrefix(vp, prm.Name()+".") {
+			root, k = prm, i
+		}
+	}
+	if root == nil {
+		return false
+	}
+	suffix := strings.TrimPrefix(vp, root.Name())
+	// the callee must not assign the field itself
+	_, fname, _ := core.FieldOf(ld.X)
+	assigned := false
+	core.EachInstr(f, func(i ssa.Instruction) {
+		if st, ok := i.(*ssa.Store); ok {
+			if _, n2, ok := core.FieldOf(st.Addr); ok && n2 == fname {
+				assigned = true
+			}
+		}
+	})
+	if assigned {
+		return false
+	}
+	n, all := 0, true
+	for _, g := range a.p.Funcs {
+		core.EachInstr(g, func(i ssa.Instruction) {
+			// the function used as a value: callers unknown
+			for _, op := range i.Operands(nil) {
+				if op != nil && *op == ssa.Value(f) {
+					if c, isCall := i.(ssa.CallInstruction); !isCall || c.Common().Value != ssa.Value(f) {
+						all = false
+					}
+				}
+			}
+			c, ok := i.(ssa.CallInstruction)
+			if !ok || core.StaticCallee(c) != f {
+				return
+			}
+			n++
+			if k >= len(c.Common().Args) {
+				all = false
+				return
+			}
+			ap, ok := core.Path(c.Common().Args[k])
+			if !ok || strings.Contains(ap, "?") {
+				all = false
+				return
+			}
+			want := strings.TrimPrefix(ap, "&") + suffix
+			found := false
+			for _, cond := range core.CondsAt(i.Block()) {
+				bo, ok := cond.Value.(*ssa.BinOp)
+				if !ok || (bo.Op != token.EQL && bo.Op != token.NEQ) {
+					continue
+				}
+				var x ssa.Value
+				if core.IsNilConst(bo.Y) {
+					x = bo.X
+				} else if core.IsNilConst(bo.X) {
+					x = bo.Y
+				} else {
+					continue
+				}
+				if !((bo.Op == token.NEQ && cond.Sense) || (bo.Op == token.EQL && !cond.Sense)) {
+					continue
+				}
+				if xp, ok := core.Path(x); ok && strings.TrimPrefix(xp, "&") == want {
+					found = true
+				}
+			}
+			if !found {
+				all = false
+			}
+		})
+	}
+	return n > 0 && all
 }
 
 // ensuredMapEntry recognises the idiom
